@@ -13,6 +13,18 @@ E2 = "explicit-state search over operation histories of the real objects against
 E3 = "bounded-exhaustive input/configuration enumeration against a reference model (depth-1 model checking)"
 
 CHECKS = {
+    "C06": dict(
+        engine="E3-enum on the real FSM",
+        category="exploration",
+        technique=E3 + ", each case driven through the real PortProtocol/ProtocolContext states (WantEcho, WantRply) on the virtual loop",
+        text="Every distinct command frame the public constructors build over their C03 domains plus raw RQ/W words of every schema regex, with the "
+        "gateway id known and unknown: sent through a real PortProtocol, then fed near-miss echoes (other code, verb, source, context) that must be "
+        "ignored, the echo with the gateway's real id that must be recognised, near-miss replies (other code, verb, responding device, context; a "
+        "foreign 0418 null entry) that must be ignored, and each proper reply (log examples and reply-regex words carrying the request's context, "
+        "incl. the 0418 null entry) that must be handed to the caller.",
+        design_ref="4/C06",
+        note="Context positions per code are a small reference table in the check; a reply addressed to another gateway is not treated as a near miss.",
+    ),
     "C05": dict(
         engine="E3-enum + E2-hist",
         category="exploration",
